@@ -9,6 +9,7 @@
   for the solver loop models.
 -/
 import Alpaqa.Proofs.VecLemmas
+import Alpaqa.Proofs.C06Spec
 import Alpaqa.Gen.C06
 import Alpaqa.Model.XR
 
@@ -114,7 +115,66 @@ theorem nonfinite_reports_notFinite (tol ε : XR β) (maxIter maxNP k np : Nat) 
   unfold statusChain effTol at *
   simp_all
 
+/-- Why "finite tolerance" is a hypothesis: with `tolerance = +inf` the chain's test `ε ≤ tolerance`
+    holds for `ε = +inf`, and the solve is reported `Converged` with a non-finite residual (the two clauses
+    "Converged ⇔ ε ≤ tolerance" and "a non-finite residual is never Converged" of the property contradict
+    each other there; the code implements the first). -/
+theorem inf_tolerance_accepts_inf (maxIter maxNP k np : Nat) (oot intr : Bool) :
+    statusChain (XR.pinf : XR β) maxIter maxNP k XR.pinf np oot intr = .Converged := by
+  rw [converged_iff]
+  have : effTol (XR.pinf : XR β) = XR.pinf := by
+    unfold effTol
+    have h : (XR.pinf : XR β) > 0 := (rfl : XR.ltb (XR.fin (0 : β)) XR.pinf = true)
+    rw [if_pos h]
+  rw [this]
+  exact (rfl : XR.leb (XR.pinf : XR β) XR.pinf = true)
+
 end nonfinite
+
+/-! ### Non-finite residuals of the *generated criteria*: `ε = −inf` is unreachable -/
+section nonfinite_crit
+open C06Spec
+variable {β : Type} [Field β] [LinearOrder β] [IsStrictOrderedRing β]
+
+/-- **Every generated stopping criterion, evaluated in IEEE arithmetic on `XR β` (finite values, `±inf`,
+    NaN), is NaN or `≥ 0`** — for all ten criteria, all vectors (any entries, any lengths), any prox oracle,
+    provided the step size `γ` is NaN or `≥ 0` (it is a divisor in `FPRNorm`, `FPRNorm2`). -/
+theorem crit_nonneg_or_nan (c : PANOCStopCrit) (prox : XR β → Vec (XR β) → Vec (XR β) → Vec (XR β) × Vec (XR β))
+    (p : Vec (XR β)) (γ : XR β) (x xh yh g gh : Vec (XR β)) (hγ : NN γ) :
+    RealLike.isNaN (calcErrorStopCrit c prox p γ x xh yh g gh) = true ∨
+      (0 : XR β) ≤ calcErrorStopCrit c prox p γ x xh yh g gh :=
+  crit_NN XR.signLaws c prox p γ x xh yh g gh hγ
+
+/-- **A non-finite residual is never reported as `Converged`** — for the residual *as the generated
+    criteria compute it*, without the hypothesis `ε ≠ −inf` of `nonfinite_never_converged`: whatever finite
+    tolerance is requested, for all ten criteria and all inputs with `γ` NaN or `≥ 0`. -/
+theorem nonfinite_crit_never_converged (c : PANOCStopCrit)
+    (prox : XR β → Vec (XR β) → Vec (XR β) → Vec (XR β) × Vec (XR β))
+    (p : Vec (XR β)) (γ : XR β) (x xh yh g gh : Vec (XR β)) (hγ : NN γ)
+    (tol : XR β) (maxIter maxNP k np : Nat) (oot intr : Bool)
+    (hε : RealLike.isFinite (calcErrorStopCrit c prox p γ x xh yh g gh) = false)
+    (htol : RealLike.isFinite (effTol tol) = true) :
+    statusChain tol maxIter maxNP k (calcErrorStopCrit c prox p γ x xh yh g gh) np oot intr ≠ .Converged := by
+  apply nonfinite_never_converged tol _ maxIter maxNP k np oot intr hε _ htol
+  intro h
+  have := crit_NN XR.signLaws c prox p γ x xh yh g gh hγ
+  rw [h] at this
+  exact XR.not_nn_ninf this
+
+/-- With a negative step size the hypothesis on `γ` is needed: `FPRNorm = ‖p‖∞/γ` is `−inf` for
+    `‖p‖∞ = +inf`, `γ = −1`, and `−inf ≤ tolerance`. -/
+example : calcErrorStopCrit .FPRNorm (fun _ _ _ => (([] : Vec (XR ℚ)), ([] : Vec (XR ℚ))))
+    [XR.pinf] (XR.fin (-1)) [] [] [] [] [] = (XR.ninf : XR ℚ) := by
+  decide +kernel
+
+/-- non-vacuity: NaN in `p` gives a NaN residual, `+inf` a `+inf` one; neither is `Converged`. -/
+example : calcErrorStopCrit .ProjGradNorm (fun _ _ _ => (([] : Vec (XR ℚ)), ([] : Vec (XR ℚ))))
+    [XR.nan, XR.fin 1] (XR.fin 1) [] [] [] [] [] = (XR.nan : XR ℚ) ∧
+    calcErrorStopCrit .FPRNorm2 (fun _ _ _ => (([] : Vec (XR ℚ)), ([] : Vec (XR ℚ))))
+    [XR.fin 2, XR.pinf] (XR.fin (1/2)) [] [] [] [] [] = (XR.pinf : XR ℚ) := by
+  decide +kernel
+
+end nonfinite_crit
 
 /-! ### The no-progress counter over a whole run -/
 
@@ -159,6 +219,47 @@ theorem no_progress_counts_consecutive (M : Nat) (flags : List Bool) (k₀ : Nat
         have := hu.1; simp at this; omega)
     simpa [npRun, List.append_assoc] using this
 
+/-- The counter after one more iteration. -/
+theorem npRun_append_single (M k np : Nat) (fl : List Bool) (f : Bool) :
+    npRun M k np (fl ++ [f]) = noProgressUpdate (npRun M k np fl) (k + fl.length) M f := by
+  induction fl generalizing k np with
+  | nil => simp [npRun]
+  | cons x xs ih =>
+    simp only [List.cons_append, npRun, List.length_cons]
+    rw [ih]
+    congr 1
+    omega
+
+/-- **`NoProgress` needs more than `max_no_progress` consecutive unchanged iterations — for
+    `max_no_progress ≥ 1`.**  The guard is essential for the *real* code, not for this Lean function: the
+    update statement evaluates `k % max_no_progress`, which for `max_no_progress = 0` is a division by zero
+    in C++ (the real PANOC / ZeroFPR / FISTA / PANOC-OCP solvers die with SIGFPE in their first iteration:
+    known finding `C06:max-no-progress-zero-division`), whereas Lean's `k % 0 = k` lets the model run on.
+    At `max_no_progress = 0` the generated function is therefore *not* a model of the code (see
+    `noProgressUpdate_zero_is_totalised`), and no loop-level theorem says anything about the real solvers
+    there. -/
+theorem no_progress_counts_consecutive_guarded (M : Nat) (hM : 1 ≤ M) (flags : List Bool) (k₀ : Nat) :
+    npRun M k₀ 0 flags ≤ (flags.reverse.takeWhile (· = true)).length :=
+  no_progress_counts_consecutive M flags k₀
+
+/-- With `max_no_progress ≥ 1` the sampling condition `k % max_no_progress == 0` is the C++ one
+    (`%` on `unsigned` with a nonzero divisor): the counter starts counting exactly at the iterations that
+    are multiples of `max_no_progress` (or when it is already running). -/
+theorem noProgressUpdate_spec (np k M : Nat) (hM : 1 ≤ M) (same : Bool) :
+    noProgressUpdate np k M same =
+      if 0 < np ∨ M ∣ k then (if same then np + 1 else 0) else np := by
+  unfold noProgressUpdate
+  have : (k % M == 0) = decide (M ∣ k) := by
+    rw [Bool.eq_iff_iff]; simp [Nat.dvd_iff_mod_eq_zero]
+  simp only [this, Bool.or_eq_true, decide_eq_true_eq]
+
+/-- What the totalised `%` does at the excluded point: with `max_no_progress = 0` the Lean function
+    samples only at `k = 0` (`k % 0 = k`); the C++ expression is undefined there. -/
+theorem noProgressUpdate_zero_is_totalised (k : Nat) (same : Bool) :
+    noProgressUpdate 0 k 0 same = if k = 0 then (if same then 1 else 0) else 0 := by
+  unfold noProgressUpdate
+  cases k <;> cases same <;> simp
+
 /-! ### Stopping criteria = documented formulas -/
 section crit
 variable {α : Type} [Field α] [LinearOrder α] [IsStrictOrderedRing α] [RealLike α]
@@ -190,21 +291,145 @@ theorem approxKKT_eq_doc (prox : α → Vec α → Vec α → Vec α × Vec α) 
   | cons a as ih =>
     cases xh <;> cases g <;> cases gh <;> simp_all <;> ring
 
-/-- ProjGradNorm / FPRNorm: `‖p‖∞` and `‖p‖∞ / γ` of the step `p` handed in. -/
-theorem projGradNorm_eq_doc (prox : α → Vec α → Vec α → Vec α × Vec α) (γ : α)
-    (p x xh yh g gh : Vec α) :
-    stopCrit_ProjGradNorm prox p γ x xh yh g gh = normInf p ∧
-    stopCrit_FPRNorm prox p γ x xh yh g gh = normInf p / γ ∧
-    stopCrit_ProjGradNorm2 prox p γ x xh yh g gh = norm2 p ∧
-    stopCrit_FPRNorm2 prox p γ x xh yh g gh = norm2 p / γ := ⟨rfl, rfl, rfl, rfl⟩
+/-! #### The documented formula of each of the ten criteria (panoc-stop-crit.hpp), as an independent spec
 
-/-- ProjGradUnitNorm / LBFGSBpp: the prox step is re-evaluated with unit step size at `x`. -/
-theorem projGradUnitNorm_eq_doc (prox : α → Vec α → Vec α → Vec α × Vec α) (γ : α)
-    (p x xh yh g gh : Vec α) :
-    stopCrit_ProjGradUnitNorm prox p γ x xh yh g gh = normInf (prox 1 x g).2 ∧
-    stopCrit_ProjGradUnitNorm2 prox p γ x xh yh g gh = norm2 (prox 1 x g).2 ∧
-    stopCrit_LBFGSBpp prox p γ x xh yh g gh = normInf (prox 1 x g).2 / fmaxS 1 (norm2 x) :=
-  ⟨rfl, rfl, rfl⟩
+Norms are the mathematical ones of `Proofs/C06Spec`: `maxAbs v = max_i |v_i|`, `sumAbs v = Σ|v_i|`,
+`√(sumSq v) = √(Σ v_i²)`.  `PC` is the projection onto `C` (any map: the formulas are written with `Π_C`).
+The generated `calcErrorStopCrit` receives the step `p`, a prox *oracle* and work vectors; the link to the
+documented quantities is
+* `ProxIsProj PC prox`: the problem's `eval_prox_grad_step(γ, x, g)` returns `(Π_C(x − γg), Π_C(x − γg) − x)`;
+* `Consistent PC γ p x xh g`: the iterate data handed in are those of the projected-gradient step from `x`:
+  `x̂ = Π_C(x − γ∇ψ(x))`, `p = x̂ − x`. -/
+open C06Spec
+
+/-- `eval_prox_grad_step(γ, x, g) = (Π_C(x − γ g), Π_C(x − γ g) − x)`. -/
+def ProxIsProj (PC : Vec α → Vec α) (prox : α → Vec α → Vec α → Vec α × Vec α) : Prop :=
+  ∀ γ x g, prox γ x g = (PC (vsub x (smul γ g)), vsub (PC (vsub x (smul γ g))) x)
+
+/-- `x̂ = Π_C(x − γ∇ψ(x))`, `p = x̂ − x`. -/
+structure Consistent (PC : Vec α → Vec α) (γ : α) (p x xh g : Vec α) : Prop where
+  hxh : xh = PC (vsub x (smul γ g))
+  hp : p = vsub xh x
+
+/-- Ipopt criterion *as documented*: `v = x̂ − ∇ψ(x̂)`, `w = v − Π_C(v)`, `ε' = ‖x̂ − Π_C(v)‖∞`,
+    `s_d = max(s_max, (‖ŷ‖₁ + ‖w‖₁)/(2m + 2n))/s_max`, `ε = ε'/s_d`, `s_max = 100`
+    (`ε = ε'` when `m + n = 0`, where the documented quotient is `0/0`). -/
+def docIpopt (PC : Vec α → Vec α) (xh yh gh : Vec α) : α :=
+  if 2 * (yh.length + xh.length) = 0 then maxAbs (vsub xh (PC (vsub xh gh)))
+  else maxAbs (vsub xh (PC (vsub xh gh))) /
+    (max 100 ((sumAbs yh + sumAbs (vsub (vsub xh gh) (PC (vsub xh gh)))) /
+      ((2 * (yh.length + xh.length) : Nat) : α)) / 100)
+
+/-- Ipopt criterion *as coded* (panoc-helpers.tpp): the vector whose 1-norm enters `s_d` is
+    `(Π_C(v) − x̂) − ∇ψ(x̂)` — the code subtracts `∇ψ(x̂)` from `work_n2 = Π_C(v) − x̂`, whose sign is the
+    opposite of what the source comment assumes — instead of `±w = ±(x̂ − ∇ψ(x̂) − Π_C(v))`. -/
+def codedIpopt (PC : Vec α → Vec α) (xh yh gh : Vec α) : α :=
+  if 2 * (yh.length + xh.length) = 0 then maxAbs (vsub xh (PC (vsub xh gh)))
+  else maxAbs (vsub xh (PC (vsub xh gh))) /
+    (max 100 ((sumAbs yh + sumAbs (vsub (vsub (PC (vsub xh gh)) xh) gh)) /
+      ((2 * (yh.length + xh.length) : Nat) : α)) / 100)
+
+/-- **The documented formula of every criterion** (doc comments of `enum class PANOCStopCrit`). -/
+def docCrit (PC : Vec α → Vec α) (c : PANOCStopCrit) (γ : α) (x xh yh g gh : Vec α) : α :=
+  match c with
+  | .ApproxKKT => maxAbs (vadd (smul γ⁻¹ (vsub x xh)) (vsub gh g))
+  | .ApproxKKT2 => RealLike.sqrt (sumSq (vadd (smul γ⁻¹ (vsub x xh)) (vsub gh g)))
+  | .ProjGradNorm => maxAbs (vsub x (PC (vsub x (smul γ g))))
+  | .ProjGradNorm2 => RealLike.sqrt (sumSq (vsub x (PC (vsub x (smul γ g)))))
+  | .ProjGradUnitNorm => maxAbs (vsub x (PC (vsub x g)))
+  | .ProjGradUnitNorm2 => RealLike.sqrt (sumSq (vsub x (PC (vsub x g))))
+  | .FPRNorm => γ⁻¹ * maxAbs (vsub x (PC (vsub x (smul γ g))))
+  | .FPRNorm2 => γ⁻¹ * RealLike.sqrt (sumSq (vsub x (PC (vsub x (smul γ g)))))
+  | .Ipopt => docIpopt PC xh yh gh
+  | .LBFGSBpp => maxAbs (vsub x (PC (vsub x g))) / max 1 (RealLike.sqrt (sumSq x))
+
+/-- `|γ⁻¹ p + (∇ψ − ∇ψ̂)| = |γ⁻¹ (x − x̂) + (∇ψ̂ − ∇ψ)|` componentwise, for `p = x̂ − x`. -/
+theorem kkt_abs (c : α) (x xh g gh : Vec α) :
+    (vadd (smul c (vsub xh x)) (vsub g gh)).map (fun a => |a|) =
+      (vadd (smul c (vsub x xh)) (vsub gh g)).map (fun a => |a|) := by
+  unfold vadd vsub smul vzip
+  induction x generalizing xh g gh with
+  | nil => simp
+  | cons a as ih =>
+    cases xh with
+    | nil => simp
+    | cons b bs =>
+      cases g with
+      | nil => simp
+      | cons d ds =>
+        cases gh with
+        | nil => simp
+        | cons e es =>
+          simp only [List.zipWith_cons_cons, List.map_cons, List.cons.injEq]
+          refine ⟨?_, ih bs ds es⟩
+          rw [← abs_neg]; congr 1; ring
+
+theorem fmaxS_eq_max (hnn : ∀ a : α, RealLike.isNaN a = false) (a b : α) : fmaxS a b = max a b := by
+  unfold fmaxS
+  simp only [hnn, Bool.false_eq_true, if_false]
+  exact emax_eq_max a b
+
+/-- **`calc_error_stop_crit` = the documented formula, for the nine criteria other than `Ipopt`** — the
+    generated code (which works from the step `p` it is handed, prox-oracle calls and work vectors) computes
+    the documented quantity of `(x, x̂, γ, ∇ψ(x), ∇ψ(x̂))`. -/
+theorem calcErrorStopCrit_eq_doc (hnn : ∀ a : α, RealLike.isNaN a = false) (PC : Vec α → Vec α)
+    (prox : α → Vec α → Vec α → Vec α × Vec α) (hP : ProxIsProj PC prox)
+    (c : PANOCStopCrit) (hc : c ≠ .Ipopt) (γ : α) (p x xh yh g gh : Vec α)
+    (hd : Consistent PC γ p x xh g) :
+    calcErrorStopCrit c prox p γ x xh yh g gh = docCrit PC c γ x xh yh g gh := by
+  have hp := hd.hp
+  have hxh := hd.hxh
+  have hu : (prox 1 x g).2 = vsub (PC (vsub x g)) x := by rw [hP 1 x g, smul_one]
+  have e1 : normInf p = maxAbs (vsub x (PC (vsub x (smul γ g)))) := by
+    rw [normInf_eq_maxAbs, hp, ← hxh]; exact maxAbs_congr_abs _ _ (abs_vsub_comm _ _)
+  have e2 : norm2 p = RealLike.sqrt (sumSq (vsub x (PC (vsub x (smul γ g))))) := by
+    rw [norm2_eq_sqrt_sumSq, hp, ← hxh]; congr 1; exact sumSq_congr_abs _ _ (abs_vsub_comm _ _)
+  have e3 : normInf (prox 1 x g).2 = maxAbs (vsub x (PC (vsub x g))) := by
+    rw [normInf_eq_maxAbs, hu]; exact maxAbs_congr_abs _ _ (abs_vsub_comm _ _)
+  have e4 : norm2 (prox 1 x g).2 = RealLike.sqrt (sumSq (vsub x (PC (vsub x g)))) := by
+    rw [norm2_eq_sqrt_sumSq, hu]; congr 1; exact sumSq_congr_abs _ _ (abs_vsub_comm _ _)
+  cases c
+  · simp only [calcErrorStopCrit, stopCrit_ApproxKKT, docCrit]
+    rw [normInf_eq_maxAbs, hp, one_div]
+    exact maxAbs_congr_abs _ _ (kkt_abs _ _ _ _ _)
+  · simp only [calcErrorStopCrit, stopCrit_ApproxKKT2, docCrit]
+    rw [norm2_eq_sqrt_sumSq, hp, one_div]
+    congr 1
+    exact sumSq_congr_abs _ _ (kkt_abs _ _ _ _ _)
+  · simp only [calcErrorStopCrit, stopCrit_ProjGradNorm, docCrit]; exact e1
+  · simp only [calcErrorStopCrit, stopCrit_ProjGradNorm2, docCrit]; exact e2
+  · simp only [calcErrorStopCrit, stopCrit_ProjGradUnitNorm, docCrit]; exact e3
+  · simp only [calcErrorStopCrit, stopCrit_ProjGradUnitNorm2, docCrit]; exact e4
+  · simp only [calcErrorStopCrit, stopCrit_FPRNorm, docCrit]; rw [e1, div_eq_inv_mul]
+  · simp only [calcErrorStopCrit, stopCrit_FPRNorm2, docCrit]; rw [e2, div_eq_inv_mul]
+  · exact absurd rfl hc
+  · simp only [calcErrorStopCrit, stopCrit_LBFGSBpp, docCrit]
+    rw [e3, fmaxS_eq_max hnn, norm2_eq_sqrt_sumSq]
+
+/-- **Ipopt: what the code computes** (`codedIpopt`) … -/
+theorem ipopt_eq_coded (PC : Vec α → Vec α) (prox : α → Vec α → Vec α → Vec α × Vec α)
+    (hP : ProxIsProj PC prox) (γ : α) (p x xh yh g gh : Vec α) :
+    calcErrorStopCrit .Ipopt prox p γ x xh yh g gh = codedIpopt PC xh yh gh := by
+  have hu : (prox 1 xh gh).2 = vsub (PC (vsub xh gh)) xh := by rw [hP 1 xh gh, smul_one]
+  have e3 : normInf (prox 1 xh gh).2 = maxAbs (vsub xh (PC (vsub xh gh))) := by
+    rw [normInf_eq_maxAbs, hu]; exact maxAbs_congr_abs _ _ (abs_vsub_comm _ _)
+  simp only [calcErrorStopCrit, stopCrit_Ipopt, codedIpopt]
+  by_cases hn : 2 * (yh.length + xh.length) = 0
+  · simp only [hn, beq_self_eq_true, if_true]; exact e3
+  · have hb : ((2 * (yh.length + xh.length)) == 0) = false := by simpa using hn
+    simp only [hb, hn, Bool.false_eq_true, if_false]
+    rw [e3, emax_eq_max, norm1_eq_sumAbs, norm1_eq_sumAbs, hu, add_comm (sumAbs _) (sumAbs yh)]
+
+/-- … **coincides with the documented formula whenever the two candidate box multipliers have the same
+    1-norm** — e.g. when `∇ψ(x̂) = 0` componentwise, or `x̂ = Π_C(x̂ − ∇ψ(x̂))` (a fixed point: then both are
+    `‖∇ψ(x̂)‖₁`) — **and differs from it in general** (next example): known finding
+    `C06:ipopt-box-multiplier-sign`. -/
+theorem ipopt_eq_doc_of (PC : Vec α → Vec α) (prox : α → Vec α → Vec α → Vec α × Vec α)
+    (hP : ProxIsProj PC prox) (γ : α) (p x xh yh g gh : Vec α)
+    (hw : sumAbs (vsub (vsub (PC (vsub xh gh)) xh) gh) = sumAbs (vsub (vsub xh gh) (PC (vsub xh gh)))) :
+    calcErrorStopCrit .Ipopt prox p γ x xh yh g gh = docCrit PC .Ipopt γ x xh yh g gh := by
+  rw [ipopt_eq_coded PC prox hP]
+  simp only [docCrit, docIpopt, codedIpopt, hw]
 
 /-- A tolerance met in the ∞-norm bounds every component of the residual vector. -/
 theorem approxKKT_componentwise (prox : α → Vec α → Vec α → Vec α × Vec α) (γ tol : α)
@@ -241,5 +466,50 @@ example : statusChain (XR.fin (1 : ℚ)) 10 5 3 (XR.nan) 0 false false = .NotFin
   decide
 example : npRun 2 0 0 [true, true, true, false, true] = 1 := by decide
 example : npRun 2 0 0 [true, true, true] = 3 := by decide
+
+/-! ### Non-vacuity of the documented-formula theorems -/
+section doc_examples
+local instance ratRealLikeC06 : RealLike ℚ := ⟨id, fun _ => false, fun _ => true⟩
+
+/-- projection onto the box `[-1, 1]ⁿ` and the corresponding projected-gradient step -/
+def exPC (v : Vec ℚ) : Vec ℚ := v.map fun a => min (max a (-1)) 1
+def exProx (γ : ℚ) (x g : Vec ℚ) : Vec ℚ × Vec ℚ :=
+  (exPC (vsub x (smul γ g)), vsub (exPC (vsub x (smul γ g))) x)
+
+/-- `x = (½, 0)`, `∇ψ(x) = (−3, 1)`, `γ = ½`: `x̂ = Π_C(2, −½) = (1, −½)`, `p = (½, −½)`. -/
+theorem exConsistent : Consistent exPC (1/2) [1/2, -1/2] [1/2, 0] [1, -1/2] [-3, 1] :=
+  ⟨by decide +kernel, by decide +kernel⟩
+
+/-- all hypotheses of `calcErrorStopCrit_eq_doc` instantiated, for each of the nine criteria -/
+example (c : PANOCStopCrit) (hc : c ≠ .Ipopt) :
+    calcErrorStopCrit c exProx [1/2, -1/2] (1/2) [1/2, 0] [1, -1/2] [7] [-3, 1] [2, 5]
+      = docCrit exPC c (1/2) [1/2, 0] [1, -1/2] [7] [-3, 1] [2, 5] :=
+  calcErrorStopCrit_eq_doc (fun _ => rfl) exPC exProx (fun _ _ _ => rfl) c hc _ _ _ _ _ _ _ exConsistent
+
+/-- the documented values at that point: `‖p‖∞ = ½`, `‖p‖∞/γ = 1`, unit step
+    `x − Π_C(x − ∇ψ) = (−½, 1)`, KKT residual `γ⁻¹(x − x̂) + ∇ψ̂ − ∇ψ = (4, 5)` -/
+example : docCrit exPC .ProjGradNorm (1/2) [1/2, 0] [1, -1/2] [7] [-3, 1] [2, 5] = 1/2 ∧
+    docCrit exPC .FPRNorm (1/2) [1/2, 0] [1, -1/2] [7] [-3, 1] [2, 5] = 1 ∧
+    docCrit exPC .ProjGradUnitNorm (1/2) [1/2, 0] [1, -1/2] [7] [-3, 1] [2, 5] = 1 ∧
+    docCrit exPC .ApproxKKT (1/2) [1/2, 0] [1, -1/2] [7] [-3, 1] [2, 5] = 5 := by
+  decide +kernel
+
+/-- **Ipopt: the coded and the documented formula differ** — unconstrained (`Π_C = id`), `x̂ = 0`,
+    `∇ψ(x̂) = 1000`, no general constraints: documented `w = 0`, `s_d = 1`, `ε = 1000`; the code uses
+    `‖−2∇ψ(x̂)‖₁/2 = 1000 > s_max`, `s_d = 10`, `ε = 100` (the real `calc_error_stop_crit` returns 100). -/
+example : docIpopt (fun v : Vec ℚ => v) [0] [] [1000] = 1000 ∧
+    codedIpopt (fun v : Vec ℚ => v) [0] [] [1000] = 100 := by
+  decide +kernel
+
+/-- … and they agree where the hypothesis of `ipopt_eq_doc_of` holds (here `∇ψ(x̂) = 0`). -/
+example : calcErrorStopCrit .Ipopt exProx [] 1 [] [3, 0] [7] [] [0, 0]
+    = docCrit exPC .Ipopt 1 [] [3, 0] [7] [] [0, 0] :=
+  ipopt_eq_doc_of exPC exProx (fun _ _ _ => rfl) _ _ _ _ _ _ _ (by decide +kernel)
+
+example : no_progress_counts_consecutive_guarded 2 (by decide) [true, true, true] 0 =
+    no_progress_counts_consecutive 2 [true, true, true] 0 := rfl
+example : noProgressUpdate 0 4 2 true = 1 ∧ noProgressUpdate 0 5 2 true = 0 ∧ noProgressUpdate 3 5 2 true = 4 := by
+  decide
+end doc_examples
 
 end Alpaqa.Props.C06
